@@ -253,6 +253,13 @@ def run_variant(ctx, v, reqs, model, sanitize=False):
                 try: r2 = s.roundtrip(render_http(fixed, v), src=rq["peer"])
                 except OSError: r2 = b""
                 if monitor(fixed, r2) is None and not any(marker(t) in r2 for t in IPONLY): klass = "xff-hop-without-address-skipped"
+                elif v["lc"]:
+                    # both recorded deviations at once (upper-case spelling past a url condition AND a skipped hop): undo both
+                    both = dict(fixed, target=re.sub(rb"%([0-9a-fA-F]{2})", lambda m: bytes([int(m.group(1), 16)]) if bytes([int(m.group(1), 16)]).isalpha() else m.group(0),
+                                                     rq["target"]).lower())
+                    try: r3 = s.roundtrip(render_http(both, v), src=rq["peer"])
+                    except OSError: r3 = b""
+                    if monitor(both, r3) is None and not any(marker(t) in r3 for t in IPONLY): klass = "xff-hop-without-address-skipped"
             if not why and len(resps) % 5 == 0 and rq["target"].startswith(b"/"):
                 # the same request over HTTP/2: same protection (monitor) and the same decision as over HTTP/1.1
                 r2 = h2_roundtrip(s, rq, v)
